@@ -388,7 +388,8 @@ class TypeInstance(Type):
             result_aux.extend(
                 c.text(*args) for c in self.constraints())
             if result_aux:
-                result += f" [{', '.join(result_aux)}]"
+                # sets of variables and constraints have no stable order
+                result += f" [{', '.join(sorted(result_aux))}]"
         return result
 
     def fix(self, prefer_lower: bool = True) -> TypeInstance:
